@@ -39,6 +39,9 @@ func genReceipt(g *genCtx) {
 	value := func(k int, variant string) []byte {
 		for {
 			L := []int{0, 1, 2, 3, 4, 7, 10, 11, 20, 21, 40}[r.Intn(11)]
+			if r.Intn(25) == 0 {
+				L = []int{120, 200, 254, 255, 300, 1000}[r.Intn(6)] // a receipt need not fit a short_message (message_payload)
+			}
 			var v []byte
 			if k == 0 && variant == "smgp" {
 				// any ten (or more) octets, spaces and NULs included
